@@ -150,6 +150,14 @@ func (s *ByteStealer) Write(p []byte) (n int, err error) {
 
 func StealBytes(reader io.WriterTo) ([]byte, error) {
 	var stealer ByteStealer
+	switch reader.(type) {
+	case *bytes.Reader, *strings.Reader:
+		// one Write of an immutable backing array: safe to keep the slice
+	default:
+		// a WriterTo may reuse its buffer between Writes (bufio.Reader does):
+		// start from an owned slice so that every Write is copied
+		stealer.Data = make([]byte, 0, 64)
+	}
 	n, err := reader.WriteTo(&stealer)
 	if nil != err {
 		return nil, err
